@@ -105,6 +105,10 @@ func (f *FlagSet) ParseFlags(args, environ, prefixes []string, p *properties.Pro
 	env := map[string]string{}
 	for _, e := range environ {
 		p := strings.SplitN(e, "=", 2)
+		if len(p) != 2 {
+			// ignore entries without a value
+			continue
+		}
 		env[strings.ToUpper(p[0])] = p[1]
 	}
 
